@@ -5,622 +5,303 @@ set_option linter.unusedVariables false
 namespace ImathVerif.Gen
 open ImathVerif
 
-/-- extracted from the C++ template at T = Sym; 60 path(s) -/
-def Frame.alignZAxisWithTargetDir {α : Type} [Add α] [Sub α] [Mul α] [Div α] [Neg α] [LT α] [LE α] [DecidableLT α] [DecidableLE α] [DecidableEq α] [OfNat α 0] [OfNat α 1] [OfNat α 2] (tmin : α) (sqrt : α → α) (targetDir : V3 α) (upDir : V3 α) : (M44 α) :=
-  let t774 := ((0 : α) * (0 : α))
-  let t805 := ((0 : α) * (1 : α))
-  let t806 := (t774 - t805)
-  let t1702 := (V3.length tmin sqrt ⟨targetDir.x, targetDir.y, targetDir.z⟩)
-  let t1703 := (V3.length tmin sqrt ⟨upDir.x, upDir.y, upDir.z⟩)
-  let t1704 := ((1 : α) * (0 : α))
-  let t1705 := (t774 - t1704)
-  let t1707 := (((1 : α) * (1 : α)) - t774)
-  let t1708 := (V3.length tmin sqrt ⟨t1707, t806, t1705⟩)
-  let t1709 := (V3.length tmin sqrt ⟨t1705, t1707, t806⟩)
-  let t1710 := (t1704 - t805)
-  let t1711 := (t805 - t1704)
-  let t1714 := ((t1711 * (0 : α)) - (t1710 * (0 : α)))
-  let t1716 := ((t774 - t774) * (0 : α))
-  let t1717 := (t1716 - (t1711 * (1 : α)))
-  let t1719 := ((t1710 * (1 : α)) - t1716)
-  let t1722 := (((0 : α) * t1717) - ((0 : α) * t1719))
-  let t1723 := ((0 : α) * t1714)
-  let t1725 := (((1 : α) * t1719) - t1723)
-  let t1727 := (t1723 - ((1 : α) * t1717))
-  let t1728 := (V3.length tmin sqrt ⟨t1719, t1717, t1714⟩)
-  let t1729 := (V3.length tmin sqrt ⟨t1727, t1725, t1722⟩)
-  let t1730 := (V3.length tmin sqrt ⟨(0 : α), (0 : α), (1 : α)⟩)
-  let t1731 := ((1 : α) / t1730)
-  let t1732 := ((0 : α) / t1730)
-  let t1733 := (t1722 / t1729)
-  let t1734 := (t1725 / t1729)
-  let t1735 := (t1727 / t1729)
-  let t1736 := (t1714 / t1728)
-  let t1737 := (t1717 / t1728)
-  let t1738 := (t1719 / t1728)
-  let t1741 := ((t1705 * (0 : α)) - (t1707 * (0 : α)))
-  let t1743 := (t806 * (0 : α))
-  let t1744 := (t1743 - (t1705 * (1 : α)))
-  let t1746 := ((t1707 * (1 : α)) - t1743)
-  let t1749 := (((0 : α) * t1744) - ((0 : α) * t1746))
-  let t1750 := ((0 : α) * t1741)
-  let t1752 := (((1 : α) * t1746) - t1750)
-  let t1754 := (t1750 - ((1 : α) * t1744))
-  let t1755 := (V3.length tmin sqrt ⟨t1746, t1744, t1741⟩)
-  let t1756 := (V3.length tmin sqrt ⟨t1754, t1752, t1749⟩)
-  let t1757 := (t1749 / t1756)
-  let t1758 := (t1752 / t1756)
-  let t1759 := (t1754 / t1756)
-  let t1760 := (t1741 / t1755)
-  let t1761 := (t1744 / t1755)
-  let t1762 := (t1746 / t1755)
-  let t1765 := (((0 : α) * t806) - ((0 : α) * t1707))
-  let t1766 := ((0 : α) * t1705)
-  let t1768 := (((1 : α) * t1707) - t1766)
-  let t1770 := (t1766 - ((1 : α) * t806))
-  let t1771 := (t1705 / t1708)
-  let t1772 := (t806 / t1708)
-  let t1773 := (t1707 / t1708)
-  let t1774 := (V3.length tmin sqrt ⟨t1770, t1768, t1765⟩)
-  let t1775 := (t1765 / t1774)
-  let t1776 := (t1768 / t1774)
-  let t1777 := (t1770 / t1774)
-  let t1780 := ((upDir.x * (0 : α)) - (upDir.y * (0 : α)))
-  let t1782 := (upDir.z * (0 : α))
-  let t1783 := (t1782 - (upDir.x * (1 : α)))
-  let t1785 := ((upDir.y * (1 : α)) - t1782)
-  let t1786 := (V3.length tmin sqrt ⟨t1785, t1783, t1780⟩)
-  let t1789 := (((0 : α) * t1783) - ((0 : α) * t1785))
-  let t1790 := ((0 : α) * t1780)
-  let t1792 := (((1 : α) * t1785) - t1790)
-  let t1794 := (t1790 - ((1 : α) * t1783))
-  let t1795 := (t1780 / t1786)
-  let t1796 := (t1783 / t1786)
-  let t1797 := (t1785 / t1786)
-  let t1798 := (V3.length tmin sqrt ⟨t1794, t1792, t1789⟩)
-  let t1799 := (t1789 / t1798)
-  let t1800 := (t1792 / t1798)
-  let t1801 := (t1794 / t1798)
-  let t1803 := ((0 : α) * targetDir.y)
-  let t1804 := (t1803 - ((1 : α) * targetDir.x))
-  let t1807 := (((0 : α) * targetDir.x) - ((0 : α) * targetDir.z))
-  let t1809 := (((1 : α) * targetDir.z) - t1803)
-  let t1810 := (V3.length tmin sqrt ⟨t1809, t1807, t1804⟩)
-  let t1811 := (targetDir.y * (1 : α))
-  let t1812 := (targetDir.x * (0 : α))
-  let t1813 := (t1812 - t1811)
-  let t1815 := ((targetDir.z * (1 : α)) - t1812)
-  let t1816 := (targetDir.z * (0 : α))
-  let t1817 := (targetDir.y * (0 : α))
-  let t1818 := (t1817 - t1816)
-  let t1819 := (V3.length tmin sqrt ⟨t1818, t1815, t1813⟩)
-  let t1820 := (t1812 - t1817)
-  let t1822 := (t1816 - (targetDir.x * (1 : α)))
-  let t1823 := (t1811 - t1816)
-  let t1826 := ((t1823 * targetDir.y) - (t1822 * targetDir.x))
-  let t1829 := ((t1820 * targetDir.x) - (t1823 * targetDir.z))
-  let t1832 := ((t1822 * targetDir.z) - (t1820 * targetDir.y))
-  let t1835 := ((targetDir.x * t1829) - (targetDir.y * t1832))
-  let t1838 := ((targetDir.z * t1832) - (targetDir.x * t1826))
-  let t1841 := ((targetDir.y * t1826) - (targetDir.z * t1829))
-  let t1842 := (V3.length tmin sqrt ⟨t1832, t1829, t1826⟩)
-  let t1843 := (V3.length tmin sqrt ⟨t1841, t1838, t1835⟩)
-  let t1844 := (targetDir.z / t1702)
-  let t1845 := (targetDir.y / t1702)
-  let t1846 := (targetDir.x / t1702)
-  let t1847 := (t1835 / t1843)
-  let t1848 := (t1838 / t1843)
-  let t1849 := (t1841 / t1843)
-  let t1850 := (t1826 / t1842)
-  let t1851 := (t1829 / t1842)
-  let t1852 := (t1832 / t1842)
-  let t1855 := ((t1818 * targetDir.y) - (t1815 * targetDir.x))
-  let t1858 := ((t1813 * targetDir.x) - (t1818 * targetDir.z))
-  let t1861 := ((t1815 * targetDir.z) - (t1813 * targetDir.y))
-  let t1864 := ((targetDir.x * t1858) - (targetDir.y * t1861))
-  let t1867 := ((targetDir.z * t1861) - (targetDir.x * t1855))
-  let t1870 := ((targetDir.y * t1855) - (targetDir.z * t1858))
-  let t1871 := (V3.length tmin sqrt ⟨t1861, t1858, t1855⟩)
-  let t1872 := (V3.length tmin sqrt ⟨t1870, t1867, t1864⟩)
-  let t1873 := (t1864 / t1872)
-  let t1874 := (t1867 / t1872)
-  let t1875 := (t1870 / t1872)
-  let t1876 := (t1855 / t1871)
-  let t1877 := (t1858 / t1871)
-  let t1878 := (t1861 / t1871)
-  let t1881 := ((targetDir.x * t1807) - (targetDir.y * t1809))
-  let t1884 := ((targetDir.z * t1809) - (targetDir.x * t1804))
-  let t1887 := ((targetDir.y * t1804) - (targetDir.z * t1807))
-  let t1888 := (t1804 / t1810)
-  let t1889 := (t1807 / t1810)
-  let t1890 := (t1809 / t1810)
-  let t1891 := (V3.length tmin sqrt ⟨t1887, t1884, t1881⟩)
-  let t1897 := ((upDir.x * targetDir.y) - (upDir.y * targetDir.x))
-  let t1900 := ((upDir.z * targetDir.x) - (upDir.x * targetDir.z))
-  let t1903 := ((upDir.y * targetDir.z) - (upDir.z * targetDir.y))
-  let t1904 := (V3.length tmin sqrt ⟨t1903, t1900, t1897⟩)
-  let t1907 := ((targetDir.x * t1900) - (targetDir.y * t1903))
-  let t1910 := ((targetDir.z * t1903) - (targetDir.x * t1897))
-  let t1913 := ((targetDir.y * t1897) - (targetDir.z * t1900))
-  let t1914 := (t1897 / t1904)
-  let t1915 := (t1900 / t1904)
-  let t1916 := (t1903 / t1904)
-  let t1917 := (V3.length tmin sqrt ⟨t1913, t1910, t1907⟩)
-  if t1702 = (0 : α) then
-    if t1703 = (0 : α) then
-      if t1708 = (0 : α) then
-        if t1709 = (0 : α) then
-          if t1728 = (0 : α) then
-            if t1729 = (0 : α) then
-              if t1730 = (0 : α) then
-                ⟨(0 : α), (0 : α), (0 : α), (0 : α), (0 : α), (0 : α), (0 : α), (0 : α), (0 : α), (0 : α), (0 : α), (0 : α), (0 : α), (0 : α), (0 : α), (1 : α)⟩
-              else
-                ⟨(0 : α), (0 : α), (0 : α), (0 : α), (0 : α), (0 : α), (0 : α), (0 : α), t1732, t1732, t1731, (0 : α), (0 : α), (0 : α), (0 : α), (1 : α)⟩
-            else
-              if t1730 = (0 : α) then
-                ⟨(0 : α), (0 : α), (0 : α), (0 : α), t1735, t1734, t1733, (0 : α), (0 : α), (0 : α), (0 : α), (0 : α), (0 : α), (0 : α), (0 : α), (1 : α)⟩
-              else
-                ⟨(0 : α), (0 : α), (0 : α), (0 : α), t1735, t1734, t1733, (0 : α), t1732, t1732, t1731, (0 : α), (0 : α), (0 : α), (0 : α), (1 : α)⟩
-          else
-            if t1729 = (0 : α) then
-              if t1730 = (0 : α) then
-                ⟨t1738, t1737, t1736, (0 : α), (0 : α), (0 : α), (0 : α), (0 : α), (0 : α), (0 : α), (0 : α), (0 : α), (0 : α), (0 : α), (0 : α), (1 : α)⟩
-              else
-                ⟨t1738, t1737, t1736, (0 : α), (0 : α), (0 : α), (0 : α), (0 : α), t1732, t1732, t1731, (0 : α), (0 : α), (0 : α), (0 : α), (1 : α)⟩
-            else
-              if t1730 = (0 : α) then
-                ⟨t1738, t1737, t1736, (0 : α), t1735, t1734, t1733, (0 : α), (0 : α), (0 : α), (0 : α), (0 : α), (0 : α), (0 : α), (0 : α), (1 : α)⟩
-              else
-                ⟨t1738, t1737, t1736, (0 : α), t1735, t1734, t1733, (0 : α), t1732, t1732, t1731, (0 : α), (0 : α), (0 : α), (0 : α), (1 : α)⟩
-        else
-          if t1755 = (0 : α) then
-            if t1756 = (0 : α) then
-              if t1730 = (0 : α) then
-                ⟨(0 : α), (0 : α), (0 : α), (0 : α), (0 : α), (0 : α), (0 : α), (0 : α), (0 : α), (0 : α), (0 : α), (0 : α), (0 : α), (0 : α), (0 : α), (1 : α)⟩
-              else
-                ⟨(0 : α), (0 : α), (0 : α), (0 : α), (0 : α), (0 : α), (0 : α), (0 : α), t1732, t1732, t1731, (0 : α), (0 : α), (0 : α), (0 : α), (1 : α)⟩
-            else
-              if t1730 = (0 : α) then
-                ⟨(0 : α), (0 : α), (0 : α), (0 : α), t1759, t1758, t1757, (0 : α), (0 : α), (0 : α), (0 : α), (0 : α), (0 : α), (0 : α), (0 : α), (1 : α)⟩
-              else
-                ⟨(0 : α), (0 : α), (0 : α), (0 : α), t1759, t1758, t1757, (0 : α), t1732, t1732, t1731, (0 : α), (0 : α), (0 : α), (0 : α), (1 : α)⟩
-          else
-            if t1756 = (0 : α) then
-              if t1730 = (0 : α) then
-                ⟨t1762, t1761, t1760, (0 : α), (0 : α), (0 : α), (0 : α), (0 : α), (0 : α), (0 : α), (0 : α), (0 : α), (0 : α), (0 : α), (0 : α), (1 : α)⟩
-              else
-                ⟨t1762, t1761, t1760, (0 : α), (0 : α), (0 : α), (0 : α), (0 : α), t1732, t1732, t1731, (0 : α), (0 : α), (0 : α), (0 : α), (1 : α)⟩
-            else
-              if t1730 = (0 : α) then
-                ⟨t1762, t1761, t1760, (0 : α), t1759, t1758, t1757, (0 : α), (0 : α), (0 : α), (0 : α), (0 : α), (0 : α), (0 : α), (0 : α), (1 : α)⟩
-              else
-                ⟨t1762, t1761, t1760, (0 : α), t1759, t1758, t1757, (0 : α), t1732, t1732, t1731, (0 : α), (0 : α), (0 : α), (0 : α), (1 : α)⟩
-      else
-        if t1774 = (0 : α) then
-          if t1730 = (0 : α) then
-            ⟨t1773, t1772, t1771, (0 : α), (0 : α), (0 : α), (0 : α), (0 : α), (0 : α), (0 : α), (0 : α), (0 : α), (0 : α), (0 : α), (0 : α), (1 : α)⟩
-          else
-            ⟨t1773, t1772, t1771, (0 : α), (0 : α), (0 : α), (0 : α), (0 : α), t1732, t1732, t1731, (0 : α), (0 : α), (0 : α), (0 : α), (1 : α)⟩
-        else
-          if t1730 = (0 : α) then
-            ⟨t1773, t1772, t1771, (0 : α), t1777, t1776, t1775, (0 : α), (0 : α), (0 : α), (0 : α), (0 : α), (0 : α), (0 : α), (0 : α), (1 : α)⟩
-          else
-            ⟨t1773, t1772, t1771, (0 : α), t1777, t1776, t1775, (0 : α), t1732, t1732, t1731, (0 : α), (0 : α), (0 : α), (0 : α), (1 : α)⟩
-    else
-      if t1786 = (0 : α) then
-        if t1709 = (0 : α) then
-          if t1728 = (0 : α) then
-            if t1729 = (0 : α) then
-              if t1730 = (0 : α) then
-                ⟨(0 : α), (0 : α), (0 : α), (0 : α), (0 : α), (0 : α), (0 : α), (0 : α), (0 : α), (0 : α), (0 : α), (0 : α), (0 : α), (0 : α), (0 : α), (1 : α)⟩
-              else
-                ⟨(0 : α), (0 : α), (0 : α), (0 : α), (0 : α), (0 : α), (0 : α), (0 : α), t1732, t1732, t1731, (0 : α), (0 : α), (0 : α), (0 : α), (1 : α)⟩
-            else
-              if t1730 = (0 : α) then
-                ⟨(0 : α), (0 : α), (0 : α), (0 : α), t1735, t1734, t1733, (0 : α), (0 : α), (0 : α), (0 : α), (0 : α), (0 : α), (0 : α), (0 : α), (1 : α)⟩
-              else
-                ⟨(0 : α), (0 : α), (0 : α), (0 : α), t1735, t1734, t1733, (0 : α), t1732, t1732, t1731, (0 : α), (0 : α), (0 : α), (0 : α), (1 : α)⟩
-          else
-            if t1729 = (0 : α) then
-              if t1730 = (0 : α) then
-                ⟨t1738, t1737, t1736, (0 : α), (0 : α), (0 : α), (0 : α), (0 : α), (0 : α), (0 : α), (0 : α), (0 : α), (0 : α), (0 : α), (0 : α), (1 : α)⟩
-              else
-                ⟨t1738, t1737, t1736, (0 : α), (0 : α), (0 : α), (0 : α), (0 : α), t1732, t1732, t1731, (0 : α), (0 : α), (0 : α), (0 : α), (1 : α)⟩
-            else
-              if t1730 = (0 : α) then
-                ⟨t1738, t1737, t1736, (0 : α), t1735, t1734, t1733, (0 : α), (0 : α), (0 : α), (0 : α), (0 : α), (0 : α), (0 : α), (0 : α), (1 : α)⟩
-              else
-                ⟨t1738, t1737, t1736, (0 : α), t1735, t1734, t1733, (0 : α), t1732, t1732, t1731, (0 : α), (0 : α), (0 : α), (0 : α), (1 : α)⟩
-        else
-          if t1755 = (0 : α) then
-            if t1756 = (0 : α) then
-              if t1730 = (0 : α) then
-                ⟨(0 : α), (0 : α), (0 : α), (0 : α), (0 : α), (0 : α), (0 : α), (0 : α), (0 : α), (0 : α), (0 : α), (0 : α), (0 : α), (0 : α), (0 : α), (1 : α)⟩
-              else
-                ⟨(0 : α), (0 : α), (0 : α), (0 : α), (0 : α), (0 : α), (0 : α), (0 : α), t1732, t1732, t1731, (0 : α), (0 : α), (0 : α), (0 : α), (1 : α)⟩
-            else
-              if t1730 = (0 : α) then
-                ⟨(0 : α), (0 : α), (0 : α), (0 : α), t1759, t1758, t1757, (0 : α), (0 : α), (0 : α), (0 : α), (0 : α), (0 : α), (0 : α), (0 : α), (1 : α)⟩
-              else
-                ⟨(0 : α), (0 : α), (0 : α), (0 : α), t1759, t1758, t1757, (0 : α), t1732, t1732, t1731, (0 : α), (0 : α), (0 : α), (0 : α), (1 : α)⟩
-          else
-            if t1756 = (0 : α) then
-              if t1730 = (0 : α) then
-                ⟨t1762, t1761, t1760, (0 : α), (0 : α), (0 : α), (0 : α), (0 : α), (0 : α), (0 : α), (0 : α), (0 : α), (0 : α), (0 : α), (0 : α), (1 : α)⟩
-              else
-                ⟨t1762, t1761, t1760, (0 : α), (0 : α), (0 : α), (0 : α), (0 : α), t1732, t1732, t1731, (0 : α), (0 : α), (0 : α), (0 : α), (1 : α)⟩
-            else
-              if t1730 = (0 : α) then
-                ⟨t1762, t1761, t1760, (0 : α), t1759, t1758, t1757, (0 : α), (0 : α), (0 : α), (0 : α), (0 : α), (0 : α), (0 : α), (0 : α), (1 : α)⟩
-              else
-                ⟨t1762, t1761, t1760, (0 : α), t1759, t1758, t1757, (0 : α), t1732, t1732, t1731, (0 : α), (0 : α), (0 : α), (0 : α), (1 : α)⟩
-      else
-        if t1798 = (0 : α) then
-          if t1730 = (0 : α) then
-            ⟨t1797, t1796, t1795, (0 : α), (0 : α), (0 : α), (0 : α), (0 : α), (0 : α), (0 : α), (0 : α), (0 : α), (0 : α), (0 : α), (0 : α), (1 : α)⟩
-          else
-            ⟨t1797, t1796, t1795, (0 : α), (0 : α), (0 : α), (0 : α), (0 : α), t1732, t1732, t1731, (0 : α), (0 : α), (0 : α), (0 : α), (1 : α)⟩
-        else
-          if t1730 = (0 : α) then
-            ⟨t1797, t1796, t1795, (0 : α), t1801, t1800, t1799, (0 : α), (0 : α), (0 : α), (0 : α), (0 : α), (0 : α), (0 : α), (0 : α), (1 : α)⟩
-          else
-            ⟨t1797, t1796, t1795, (0 : α), t1801, t1800, t1799, (0 : α), t1732, t1732, t1731, (0 : α), (0 : α), (0 : α), (0 : α), (1 : α)⟩
-  else
-    if t1703 = (0 : α) then
-      if t1810 = (0 : α) then
-        if t1819 = (0 : α) then
-          if t1842 = (0 : α) then
-            if t1843 = (0 : α) then
-              ⟨(0 : α), (0 : α), (0 : α), (0 : α), (0 : α), (0 : α), (0 : α), (0 : α), t1846, t1845, t1844, (0 : α), (0 : α), (0 : α), (0 : α), (1 : α)⟩
-            else
-              ⟨(0 : α), (0 : α), (0 : α), (0 : α), t1849, t1848, t1847, (0 : α), t1846, t1845, t1844, (0 : α), (0 : α), (0 : α), (0 : α), (1 : α)⟩
-          else
-            if t1843 = (0 : α) then
-              ⟨t1852, t1851, t1850, (0 : α), (0 : α), (0 : α), (0 : α), (0 : α), t1846, t1845, t1844, (0 : α), (0 : α), (0 : α), (0 : α), (1 : α)⟩
-            else
-              ⟨t1852, t1851, t1850, (0 : α), t1849, t1848, t1847, (0 : α), t1846, t1845, t1844, (0 : α), (0 : α), (0 : α), (0 : α), (1 : α)⟩
-        else
-          if t1871 = (0 : α) then
-            if t1872 = (0 : α) then
-              ⟨(0 : α), (0 : α), (0 : α), (0 : α), (0 : α), (0 : α), (0 : α), (0 : α), t1846, t1845, t1844, (0 : α), (0 : α), (0 : α), (0 : α), (1 : α)⟩
-            else
-              ⟨(0 : α), (0 : α), (0 : α), (0 : α), t1875, t1874, t1873, (0 : α), t1846, t1845, t1844, (0 : α), (0 : α), (0 : α), (0 : α), (1 : α)⟩
-          else
-            if t1872 = (0 : α) then
-              ⟨t1878, t1877, t1876, (0 : α), (0 : α), (0 : α), (0 : α), (0 : α), t1846, t1845, t1844, (0 : α), (0 : α), (0 : α), (0 : α), (1 : α)⟩
-            else
-              ⟨t1878, t1877, t1876, (0 : α), t1875, t1874, t1873, (0 : α), t1846, t1845, t1844, (0 : α), (0 : α), (0 : α), (0 : α), (1 : α)⟩
-      else
-        if t1891 = (0 : α) then
-          ⟨t1890, t1889, t1888, (0 : α), (0 : α), (0 : α), (0 : α), (0 : α), t1846, t1845, t1844, (0 : α), (0 : α), (0 : α), (0 : α), (1 : α)⟩
-        else
-          ⟨t1890, t1889, t1888, (0 : α), (t1887 / t1891), (t1884 / t1891), (t1881 / t1891), (0 : α), t1846, t1845, t1844, (0 : α), (0 : α), (0 : α), (0 : α), (1 : α)⟩
-    else
-      if t1904 = (0 : α) then
-        if t1819 = (0 : α) then
-          if t1842 = (0 : α) then
-            if t1843 = (0 : α) then
-              ⟨(0 : α), (0 : α), (0 : α), (0 : α), (0 : α), (0 : α), (0 : α), (0 : α), t1846, t1845, t1844, (0 : α), (0 : α), (0 : α), (0 : α), (1 : α)⟩
-            else
-              ⟨(0 : α), (0 : α), (0 : α), (0 : α), t1849, t1848, t1847, (0 : α), t1846, t1845, t1844, (0 : α), (0 : α), (0 : α), (0 : α), (1 : α)⟩
-          else
-            if t1843 = (0 : α) then
-              ⟨t1852, t1851, t1850, (0 : α), (0 : α), (0 : α), (0 : α), (0 : α), t1846, t1845, t1844, (0 : α), (0 : α), (0 : α), (0 : α), (1 : α)⟩
-            else
-              ⟨t1852, t1851, t1850, (0 : α), t1849, t1848, t1847, (0 : α), t1846, t1845, t1844, (0 : α), (0 : α), (0 : α), (0 : α), (1 : α)⟩
-        else
-          if t1871 = (0 : α) then
-            if t1872 = (0 : α) then
-              ⟨(0 : α), (0 : α), (0 : α), (0 : α), (0 : α), (0 : α), (0 : α), (0 : α), t1846, t1845, t1844, (0 : α), (0 : α), (0 : α), (0 : α), (1 : α)⟩
-            else
-              ⟨(0 : α), (0 : α), (0 : α), (0 : α), t1875, t1874, t1873, (0 : α), t1846, t1845, t1844, (0 : α), (0 : α), (0 : α), (0 : α), (1 : α)⟩
-          else
-            if t1872 = (0 : α) then
-              ⟨t1878, t1877, t1876, (0 : α), (0 : α), (0 : α), (0 : α), (0 : α), t1846, t1845, t1844, (0 : α), (0 : α), (0 : α), (0 : α), (1 : α)⟩
-            else
-              ⟨t1878, t1877, t1876, (0 : α), t1875, t1874, t1873, (0 : α), t1846, t1845, t1844, (0 : α), (0 : α), (0 : α), (0 : α), (1 : α)⟩
-      else
-        if t1917 = (0 : α) then
-          ⟨t1916, t1915, t1914, (0 : α), (0 : α), (0 : α), (0 : α), (0 : α), t1846, t1845, t1844, (0 : α), (0 : α), (0 : α), (0 : α), (1 : α)⟩
-        else
-          ⟨t1916, t1915, t1914, (0 : α), (t1913 / t1917), (t1910 / t1917), (t1907 / t1917), (0 : α), t1846, t1845, t1844, (0 : α), (0 : α), (0 : α), (0 : α), (1 : α)⟩
-
 /-- extracted from the C++ template at T = Sym; 8 path(s) -/
 def Frame.computeLocalFrame {α : Type} [Add α] [Sub α] [Mul α] [Div α] [Neg α] [LT α] [LE α] [DecidableLT α] [DecidableLE α] [DecidableEq α] [OfNat α 0] [OfNat α 1] [OfNat α 2] (tmin : α) (sqrt : α → α) (p : V3 α) (xDir : V3 α) (normal : V3 α) : (M44 α) :=
-  let t1930 := (V3.length tmin sqrt ⟨xDir.x, xDir.y, xDir.z⟩)
-  let t1933 := ((normal.x * xDir.y) - (normal.y * xDir.x))
-  let t1936 := ((normal.z * xDir.x) - (normal.x * xDir.z))
-  let t1939 := ((normal.y * xDir.z) - (normal.z * xDir.y))
-  let t1940 := (V3.length tmin sqrt ⟨t1939, t1936, t1933⟩)
-  let t1943 := ((xDir.x * t1936) - (xDir.y * t1939))
-  let t1946 := ((xDir.z * t1939) - (xDir.x * t1933))
-  let t1949 := ((xDir.y * t1933) - (xDir.z * t1936))
-  let t1950 := (V3.length tmin sqrt ⟨t1949, t1946, t1943⟩)
-  let t1954 := (t1939 / t1940)
-  let t1955 := (t1936 / t1940)
-  let t1956 := (t1933 / t1940)
-  let t1959 := ((xDir.x * t1955) - (xDir.y * t1954))
-  let t1962 := ((xDir.z * t1954) - (xDir.x * t1956))
-  let t1965 := ((xDir.y * t1956) - (xDir.z * t1955))
-  let t1966 := (V3.length tmin sqrt ⟨t1965, t1962, t1959⟩)
-  let t1970 := (xDir.x / t1930)
-  let t1971 := (xDir.y / t1930)
-  let t1972 := (xDir.z / t1930)
-  let t1975 := ((normal.x * t1971) - (normal.y * t1970))
-  let t1978 := ((normal.z * t1970) - (normal.x * t1972))
-  let t1981 := ((normal.y * t1972) - (normal.z * t1971))
-  let t1982 := (V3.length tmin sqrt ⟨t1981, t1978, t1975⟩)
-  let t1985 := ((t1970 * t1978) - (t1971 * t1981))
-  let t1988 := ((t1972 * t1981) - (t1970 * t1975))
-  let t1991 := ((t1971 * t1975) - (t1972 * t1978))
-  let t1992 := (V3.length tmin sqrt ⟨t1991, t1988, t1985⟩)
-  let t1996 := (t1981 / t1982)
-  let t1997 := (t1978 / t1982)
-  let t1998 := (t1975 / t1982)
-  let t2001 := ((t1970 * t1997) - (t1971 * t1996))
-  let t2004 := ((t1972 * t1996) - (t1970 * t1998))
-  let t2007 := ((t1971 * t1998) - (t1972 * t1997))
-  let t2008 := (V3.length tmin sqrt ⟨t2007, t2004, t2001⟩)
-  if t1930 = (0 : α) then
-    if t1940 = (0 : α) then
-      if t1950 = (0 : α) then
-        ⟨xDir.x, xDir.y, xDir.z, (0 : α), t1939, t1936, t1933, (0 : α), t1949, t1946, t1943, (0 : α), p.x, p.y, p.z, (1 : α)⟩
+  let t1939 := (V3.length tmin sqrt ⟨xDir.x, xDir.y, xDir.z⟩)
+  let t1942 := ((normal.x * xDir.y) - (normal.y * xDir.x))
+  let t1945 := ((normal.z * xDir.x) - (normal.x * xDir.z))
+  let t1948 := ((normal.y * xDir.z) - (normal.z * xDir.y))
+  let t1949 := (V3.length tmin sqrt ⟨t1948, t1945, t1942⟩)
+  let t1952 := ((xDir.x * t1945) - (xDir.y * t1948))
+  let t1955 := ((xDir.z * t1948) - (xDir.x * t1942))
+  let t1958 := ((xDir.y * t1942) - (xDir.z * t1945))
+  let t1959 := (V3.length tmin sqrt ⟨t1958, t1955, t1952⟩)
+  let t1963 := (t1948 / t1949)
+  let t1964 := (t1945 / t1949)
+  let t1965 := (t1942 / t1949)
+  let t1968 := ((xDir.x * t1964) - (xDir.y * t1963))
+  let t1971 := ((xDir.z * t1963) - (xDir.x * t1965))
+  let t1974 := ((xDir.y * t1965) - (xDir.z * t1964))
+  let t1975 := (V3.length tmin sqrt ⟨t1974, t1971, t1968⟩)
+  let t1979 := (xDir.x / t1939)
+  let t1980 := (xDir.y / t1939)
+  let t1981 := (xDir.z / t1939)
+  let t1984 := ((normal.x * t1980) - (normal.y * t1979))
+  let t1987 := ((normal.z * t1979) - (normal.x * t1981))
+  let t1990 := ((normal.y * t1981) - (normal.z * t1980))
+  let t1991 := (V3.length tmin sqrt ⟨t1990, t1987, t1984⟩)
+  let t1994 := ((t1979 * t1987) - (t1980 * t1990))
+  let t1997 := ((t1981 * t1990) - (t1979 * t1984))
+  let t2000 := ((t1980 * t1984) - (t1981 * t1987))
+  let t2001 := (V3.length tmin sqrt ⟨t2000, t1997, t1994⟩)
+  let t2005 := (t1990 / t1991)
+  let t2006 := (t1987 / t1991)
+  let t2007 := (t1984 / t1991)
+  let t2010 := ((t1979 * t2006) - (t1980 * t2005))
+  let t2013 := ((t1981 * t2005) - (t1979 * t2007))
+  let t2016 := ((t1980 * t2007) - (t1981 * t2006))
+  let t2017 := (V3.length tmin sqrt ⟨t2016, t2013, t2010⟩)
+  if t1939 = (0 : α) then
+    if t1949 = (0 : α) then
+      if t1959 = (0 : α) then
+        ⟨xDir.x, xDir.y, xDir.z, (0 : α), t1948, t1945, t1942, (0 : α), t1958, t1955, t1952, (0 : α), p.x, p.y, p.z, (1 : α)⟩
       else
-        ⟨xDir.x, xDir.y, xDir.z, (0 : α), t1939, t1936, t1933, (0 : α), (t1949 / t1950), (t1946 / t1950), (t1943 / t1950), (0 : α), p.x, p.y, p.z, (1 : α)⟩
+        ⟨xDir.x, xDir.y, xDir.z, (0 : α), t1948, t1945, t1942, (0 : α), (t1958 / t1959), (t1955 / t1959), (t1952 / t1959), (0 : α), p.x, p.y, p.z, (1 : α)⟩
     else
-      if t1966 = (0 : α) then
-        ⟨xDir.x, xDir.y, xDir.z, (0 : α), t1954, t1955, t1956, (0 : α), t1965, t1962, t1959, (0 : α), p.x, p.y, p.z, (1 : α)⟩
+      if t1975 = (0 : α) then
+        ⟨xDir.x, xDir.y, xDir.z, (0 : α), t1963, t1964, t1965, (0 : α), t1974, t1971, t1968, (0 : α), p.x, p.y, p.z, (1 : α)⟩
       else
-        ⟨xDir.x, xDir.y, xDir.z, (0 : α), t1954, t1955, t1956, (0 : α), (t1965 / t1966), (t1962 / t1966), (t1959 / t1966), (0 : α), p.x, p.y, p.z, (1 : α)⟩
+        ⟨xDir.x, xDir.y, xDir.z, (0 : α), t1963, t1964, t1965, (0 : α), (t1974 / t1975), (t1971 / t1975), (t1968 / t1975), (0 : α), p.x, p.y, p.z, (1 : α)⟩
   else
-    if t1982 = (0 : α) then
-      if t1992 = (0 : α) then
-        ⟨t1970, t1971, t1972, (0 : α), t1981, t1978, t1975, (0 : α), t1991, t1988, t1985, (0 : α), p.x, p.y, p.z, (1 : α)⟩
+    if t1991 = (0 : α) then
+      if t2001 = (0 : α) then
+        ⟨t1979, t1980, t1981, (0 : α), t1990, t1987, t1984, (0 : α), t2000, t1997, t1994, (0 : α), p.x, p.y, p.z, (1 : α)⟩
       else
-        ⟨t1970, t1971, t1972, (0 : α), t1981, t1978, t1975, (0 : α), (t1991 / t1992), (t1988 / t1992), (t1985 / t1992), (0 : α), p.x, p.y, p.z, (1 : α)⟩
+        ⟨t1979, t1980, t1981, (0 : α), t1990, t1987, t1984, (0 : α), (t2000 / t2001), (t1997 / t2001), (t1994 / t2001), (0 : α), p.x, p.y, p.z, (1 : α)⟩
     else
-      if t2008 = (0 : α) then
-        ⟨t1970, t1971, t1972, (0 : α), t1996, t1997, t1998, (0 : α), t2007, t2004, t2001, (0 : α), p.x, p.y, p.z, (1 : α)⟩
+      if t2017 = (0 : α) then
+        ⟨t1979, t1980, t1981, (0 : α), t2005, t2006, t2007, (0 : α), t2016, t2013, t2010, (0 : α), p.x, p.y, p.z, (1 : α)⟩
       else
-        ⟨t1970, t1971, t1972, (0 : α), t1996, t1997, t1998, (0 : α), (t2007 / t2008), (t2004 / t2008), (t2001 / t2008), (0 : α), p.x, p.y, p.z, (1 : α)⟩
+        ⟨t1979, t1980, t1981, (0 : α), t2005, t2006, t2007, (0 : α), (t2016 / t2017), (t2013 / t2017), (t2010 / t2017), (0 : α), p.x, p.y, p.z, (1 : α)⟩
 
 /-- extracted from the C++ template at T = Sym; 1 path(s) -/
 def Frame.addOffset {α : Type} [Add α] [Mul α] [Div α] [Neg α] [OfNat α 0] [OfNat α 1] [OfNat α 5030569068109113] [OfNat α 288230376151711744] (sin : α → α) (cos : α → α) (inMat : M44 α) (tOffset : V3 α) (rOffset : V3 α) (sOffset : V3 α) (ref : M44 α) : (M44 α) :=
-  let t2054 := (rOffset.x * ((5030569068109113 : α) / (288230376151711744 : α)))
-  let t2055 := (rOffset.y * ((5030569068109113 : α) / (288230376151711744 : α)))
-  let t2056 := (rOffset.z * ((5030569068109113 : α) / (288230376151711744 : α)))
-  let t2057 := (cos t2056)
-  let t2058 := (cos t2055)
-  let t2059 := (cos t2054)
-  let t2060 := (sin t2056)
-  let t2061 := (sin t2055)
-  let t2062 := (sin t2054)
-  let t2063 := (t2057 * t2058)
-  let t2064 := (t2060 * t2058)
-  let t2065 := (-t2061)
-  let t2066 := (t2057 * t2061)
-  let t2068 := (-t2060)
-  let t2070 := ((t2068 * t2059) + (t2066 * t2062))
-  let t2071 := (t2060 * t2061)
-  let t2074 := ((t2057 * t2059) + (t2071 * t2062))
-  let t2075 := (t2058 * t2062)
-  let t2077 := (-t2062)
-  let t2079 := ((t2068 * t2077) + (t2066 * t2059))
-  let t2082 := ((t2057 * t2077) + (t2071 * t2059))
-  let t2083 := (t2058 * t2059)
-  let t2084 := ((0 : α) * t2065)
-  let t2085 := ((0 : α) * t2064)
-  let t2088 := ((((1 : α) * t2063) + t2085) + t2084)
-  let t2090 := ((0 : α) * t2063)
-  let t2092 := ((t2090 + ((1 : α) * t2064)) + t2084)
-  let t2094 := (t2090 + t2085)
-  let t2095 := (t2094 + ((1 : α) * t2065))
-  let t2096 := (t2094 + t2084)
-  let t2097 := ((0 : α) * t2075)
-  let t2098 := ((0 : α) * t2074)
-  let t2101 := ((((1 : α) * t2070) + t2098) + t2097)
-  let t2103 := ((0 : α) * t2070)
-  let t2105 := ((t2103 + ((1 : α) * t2074)) + t2097)
-  let t2107 := (t2103 + t2098)
-  let t2108 := (t2107 + ((1 : α) * t2075))
-  let t2109 := (t2107 + t2097)
-  let t2110 := ((0 : α) * t2083)
-  let t2111 := ((0 : α) * t2082)
-  let t2114 := ((((1 : α) * t2079) + t2111) + t2110)
-  let t2116 := ((0 : α) * t2079)
-  let t2118 := ((t2116 + ((1 : α) * t2082)) + t2110)
-  let t2120 := (t2116 + t2111)
-  let t2121 := (t2120 + ((1 : α) * t2083))
-  let t2122 := (t2120 + t2110)
-  let t2123 := ((1 : α) * sOffset.x)
-  let t2124 := ((0 : α) * sOffset.x)
-  let t2125 := ((0 : α) * sOffset.y)
-  let t2126 := ((1 : α) * sOffset.y)
-  let t2127 := ((0 : α) * sOffset.z)
-  let t2128 := ((1 : α) * sOffset.z)
-  let t2135 := ((((t2123 * t2088) + (t2124 * t2101)) + (t2124 * t2114)) + (t2124 * tOffset.x))
-  let t2142 := ((((t2123 * t2092) + (t2124 * t2105)) + (t2124 * t2118)) + (t2124 * tOffset.y))
-  let t2149 := ((((t2123 * t2095) + (t2124 * t2108)) + (t2124 * t2121)) + (t2124 * tOffset.z))
-  let t2156 := ((((t2123 * t2096) + (t2124 * t2109)) + (t2124 * t2122)) + (t2124 * (1 : α)))
-  let t2163 := ((((t2125 * t2088) + (t2126 * t2101)) + (t2125 * t2114)) + (t2125 * tOffset.x))
-  let t2170 := ((((t2125 * t2092) + (t2126 * t2105)) + (t2125 * t2118)) + (t2125 * tOffset.y))
-  let t2177 := ((((t2125 * t2095) + (t2126 * t2108)) + (t2125 * t2121)) + (t2125 * tOffset.z))
-  let t2184 := ((((t2125 * t2096) + (t2126 * t2109)) + (t2125 * t2122)) + (t2125 * (1 : α)))
-  let t2191 := ((((t2127 * t2088) + (t2127 * t2101)) + (t2128 * t2114)) + (t2127 * tOffset.x))
-  let t2198 := ((((t2127 * t2092) + (t2127 * t2105)) + (t2128 * t2118)) + (t2127 * tOffset.y))
-  let t2205 := ((((t2127 * t2095) + (t2127 * t2108)) + (t2128 * t2121)) + (t2127 * tOffset.z))
-  let t2212 := ((((t2127 * t2096) + (t2127 * t2109)) + (t2128 * t2122)) + (t2127 * (1 : α)))
-  let t2219 := (((((0 : α) * t2088) + ((0 : α) * t2101)) + ((0 : α) * t2114)) + ((1 : α) * tOffset.x))
-  let t2226 := (((((0 : α) * t2092) + ((0 : α) * t2105)) + ((0 : α) * t2118)) + ((1 : α) * tOffset.y))
-  let t2233 := (((((0 : α) * t2095) + ((0 : α) * t2108)) + ((0 : α) * t2121)) + ((1 : α) * tOffset.z))
-  let t2239 := (((((0 : α) * t2096) + ((0 : α) * t2109)) + ((0 : α) * t2122)) + ((1 : α) * (1 : α)))
-  let t2246 := ((((t2135 * inMat.x00) + (t2142 * inMat.x10)) + (t2149 * inMat.x20)) + (t2156 * inMat.x30))
-  let t2253 := ((((t2135 * inMat.x01) + (t2142 * inMat.x11)) + (t2149 * inMat.x21)) + (t2156 * inMat.x31))
-  let t2260 := ((((t2135 * inMat.x02) + (t2142 * inMat.x12)) + (t2149 * inMat.x22)) + (t2156 * inMat.x32))
-  let t2267 := ((((t2135 * inMat.x03) + (t2142 * inMat.x13)) + (t2149 * inMat.x23)) + (t2156 * inMat.x33))
-  let t2274 := ((((t2163 * inMat.x00) + (t2170 * inMat.x10)) + (t2177 * inMat.x20)) + (t2184 * inMat.x30))
-  let t2281 := ((((t2163 * inMat.x01) + (t2170 * inMat.x11)) + (t2177 * inMat.x21)) + (t2184 * inMat.x31))
-  let t2288 := ((((t2163 * inMat.x02) + (t2170 * inMat.x12)) + (t2177 * inMat.x22)) + (t2184 * inMat.x32))
-  let t2295 := ((((t2163 * inMat.x03) + (t2170 * inMat.x13)) + (t2177 * inMat.x23)) + (t2184 * inMat.x33))
-  let t2302 := ((((t2191 * inMat.x00) + (t2198 * inMat.x10)) + (t2205 * inMat.x20)) + (t2212 * inMat.x30))
-  let t2309 := ((((t2191 * inMat.x01) + (t2198 * inMat.x11)) + (t2205 * inMat.x21)) + (t2212 * inMat.x31))
-  let t2316 := ((((t2191 * inMat.x02) + (t2198 * inMat.x12)) + (t2205 * inMat.x22)) + (t2212 * inMat.x32))
-  let t2323 := ((((t2191 * inMat.x03) + (t2198 * inMat.x13)) + (t2205 * inMat.x23)) + (t2212 * inMat.x33))
-  let t2330 := ((((t2219 * inMat.x00) + (t2226 * inMat.x10)) + (t2233 * inMat.x20)) + (t2239 * inMat.x30))
-  let t2337 := ((((t2219 * inMat.x01) + (t2226 * inMat.x11)) + (t2233 * inMat.x21)) + (t2239 * inMat.x31))
-  let t2344 := ((((t2219 * inMat.x02) + (t2226 * inMat.x12)) + (t2233 * inMat.x22)) + (t2239 * inMat.x32))
-  let t2351 := ((((t2219 * inMat.x03) + (t2226 * inMat.x13)) + (t2233 * inMat.x23)) + (t2239 * inMat.x33))
-  ⟨((((t2246 * ref.x00) + (t2253 * ref.x10)) + (t2260 * ref.x20)) + (t2267 * ref.x30)), ((((t2246 * ref.x01) + (t2253 * ref.x11)) + (t2260 * ref.x21)) + (t2267 * ref.x31)), ((((t2246 * ref.x02) + (t2253 * ref.x12)) + (t2260 * ref.x22)) + (t2267 * ref.x32)), ((((t2246 * ref.x03) + (t2253 * ref.x13)) + (t2260 * ref.x23)) + (t2267 * ref.x33)), ((((t2274 * ref.x00) + (t2281 * ref.x10)) + (t2288 * ref.x20)) + (t2295 * ref.x30)), ((((t2274 * ref.x01) + (t2281 * ref.x11)) + (t2288 * ref.x21)) + (t2295 * ref.x31)), ((((t2274 * ref.x02) + (t2281 * ref.x12)) + (t2288 * ref.x22)) + (t2295 * ref.x32)), ((((t2274 * ref.x03) + (t2281 * ref.x13)) + (t2288 * ref.x23)) + (t2295 * ref.x33)), ((((t2302 * ref.x00) + (t2309 * ref.x10)) + (t2316 * ref.x20)) + (t2323 * ref.x30)), ((((t2302 * ref.x01) + (t2309 * ref.x11)) + (t2316 * ref.x21)) + (t2323 * ref.x31)), ((((t2302 * ref.x02) + (t2309 * ref.x12)) + (t2316 * ref.x22)) + (t2323 * ref.x32)), ((((t2302 * ref.x03) + (t2309 * ref.x13)) + (t2316 * ref.x23)) + (t2323 * ref.x33)), ((((t2330 * ref.x00) + (t2337 * ref.x10)) + (t2344 * ref.x20)) + (t2351 * ref.x30)), ((((t2330 * ref.x01) + (t2337 * ref.x11)) + (t2344 * ref.x21)) + (t2351 * ref.x31)), ((((t2330 * ref.x02) + (t2337 * ref.x12)) + (t2344 * ref.x22)) + (t2351 * ref.x32)), ((((t2330 * ref.x03) + (t2337 * ref.x13)) + (t2344 * ref.x23)) + (t2351 * ref.x33))⟩
+  let t2063 := (rOffset.x * ((5030569068109113 : α) / (288230376151711744 : α)))
+  let t2064 := (rOffset.y * ((5030569068109113 : α) / (288230376151711744 : α)))
+  let t2065 := (rOffset.z * ((5030569068109113 : α) / (288230376151711744 : α)))
+  let t2066 := (cos t2065)
+  let t2067 := (cos t2064)
+  let t2068 := (cos t2063)
+  let t2069 := (sin t2065)
+  let t2070 := (sin t2064)
+  let t2071 := (sin t2063)
+  let t2072 := (t2066 * t2067)
+  let t2073 := (t2069 * t2067)
+  let t2074 := (-t2070)
+  let t2075 := (t2066 * t2070)
+  let t2077 := (-t2069)
+  let t2079 := ((t2077 * t2068) + (t2075 * t2071))
+  let t2080 := (t2069 * t2070)
+  let t2083 := ((t2066 * t2068) + (t2080 * t2071))
+  let t2084 := (t2067 * t2071)
+  let t2086 := (-t2071)
+  let t2088 := ((t2077 * t2086) + (t2075 * t2068))
+  let t2091 := ((t2066 * t2086) + (t2080 * t2068))
+  let t2092 := (t2067 * t2068)
+  let t2093 := ((0 : α) * t2074)
+  let t2094 := ((0 : α) * t2073)
+  let t2097 := ((((1 : α) * t2072) + t2094) + t2093)
+  let t2099 := ((0 : α) * t2072)
+  let t2101 := ((t2099 + ((1 : α) * t2073)) + t2093)
+  let t2103 := (t2099 + t2094)
+  let t2104 := (t2103 + ((1 : α) * t2074))
+  let t2105 := (t2103 + t2093)
+  let t2106 := ((0 : α) * t2084)
+  let t2107 := ((0 : α) * t2083)
+  let t2110 := ((((1 : α) * t2079) + t2107) + t2106)
+  let t2112 := ((0 : α) * t2079)
+  let t2114 := ((t2112 + ((1 : α) * t2083)) + t2106)
+  let t2116 := (t2112 + t2107)
+  let t2117 := (t2116 + ((1 : α) * t2084))
+  let t2118 := (t2116 + t2106)
+  let t2119 := ((0 : α) * t2092)
+  let t2120 := ((0 : α) * t2091)
+  let t2123 := ((((1 : α) * t2088) + t2120) + t2119)
+  let t2125 := ((0 : α) * t2088)
+  let t2127 := ((t2125 + ((1 : α) * t2091)) + t2119)
+  let t2129 := (t2125 + t2120)
+  let t2130 := (t2129 + ((1 : α) * t2092))
+  let t2131 := (t2129 + t2119)
+  let t2132 := ((1 : α) * sOffset.x)
+  let t2133 := ((0 : α) * sOffset.x)
+  let t2134 := ((0 : α) * sOffset.y)
+  let t2135 := ((1 : α) * sOffset.y)
+  let t2136 := ((0 : α) * sOffset.z)
+  let t2137 := ((1 : α) * sOffset.z)
+  let t2144 := ((((t2132 * t2097) + (t2133 * t2110)) + (t2133 * t2123)) + (t2133 * tOffset.x))
+  let t2151 := ((((t2132 * t2101) + (t2133 * t2114)) + (t2133 * t2127)) + (t2133 * tOffset.y))
+  let t2158 := ((((t2132 * t2104) + (t2133 * t2117)) + (t2133 * t2130)) + (t2133 * tOffset.z))
+  let t2165 := ((((t2132 * t2105) + (t2133 * t2118)) + (t2133 * t2131)) + (t2133 * (1 : α)))
+  let t2172 := ((((t2134 * t2097) + (t2135 * t2110)) + (t2134 * t2123)) + (t2134 * tOffset.x))
+  let t2179 := ((((t2134 * t2101) + (t2135 * t2114)) + (t2134 * t2127)) + (t2134 * tOffset.y))
+  let t2186 := ((((t2134 * t2104) + (t2135 * t2117)) + (t2134 * t2130)) + (t2134 * tOffset.z))
+  let t2193 := ((((t2134 * t2105) + (t2135 * t2118)) + (t2134 * t2131)) + (t2134 * (1 : α)))
+  let t2200 := ((((t2136 * t2097) + (t2136 * t2110)) + (t2137 * t2123)) + (t2136 * tOffset.x))
+  let t2207 := ((((t2136 * t2101) + (t2136 * t2114)) + (t2137 * t2127)) + (t2136 * tOffset.y))
+  let t2214 := ((((t2136 * t2104) + (t2136 * t2117)) + (t2137 * t2130)) + (t2136 * tOffset.z))
+  let t2221 := ((((t2136 * t2105) + (t2136 * t2118)) + (t2137 * t2131)) + (t2136 * (1 : α)))
+  let t2228 := (((((0 : α) * t2097) + ((0 : α) * t2110)) + ((0 : α) * t2123)) + ((1 : α) * tOffset.x))
+  let t2235 := (((((0 : α) * t2101) + ((0 : α) * t2114)) + ((0 : α) * t2127)) + ((1 : α) * tOffset.y))
+  let t2242 := (((((0 : α) * t2104) + ((0 : α) * t2117)) + ((0 : α) * t2130)) + ((1 : α) * tOffset.z))
+  let t2248 := (((((0 : α) * t2105) + ((0 : α) * t2118)) + ((0 : α) * t2131)) + ((1 : α) * (1 : α)))
+  let t2255 := ((((t2144 * inMat.x00) + (t2151 * inMat.x10)) + (t2158 * inMat.x20)) + (t2165 * inMat.x30))
+  let t2262 := ((((t2144 * inMat.x01) + (t2151 * inMat.x11)) + (t2158 * inMat.x21)) + (t2165 * inMat.x31))
+  let t2269 := ((((t2144 * inMat.x02) + (t2151 * inMat.x12)) + (t2158 * inMat.x22)) + (t2165 * inMat.x32))
+  let t2276 := ((((t2144 * inMat.x03) + (t2151 * inMat.x13)) + (t2158 * inMat.x23)) + (t2165 * inMat.x33))
+  let t2283 := ((((t2172 * inMat.x00) + (t2179 * inMat.x10)) + (t2186 * inMat.x20)) + (t2193 * inMat.x30))
+  let t2290 := ((((t2172 * inMat.x01) + (t2179 * inMat.x11)) + (t2186 * inMat.x21)) + (t2193 * inMat.x31))
+  let t2297 := ((((t2172 * inMat.x02) + (t2179 * inMat.x12)) + (t2186 * inMat.x22)) + (t2193 * inMat.x32))
+  let t2304 := ((((t2172 * inMat.x03) + (t2179 * inMat.x13)) + (t2186 * inMat.x23)) + (t2193 * inMat.x33))
+  let t2311 := ((((t2200 * inMat.x00) + (t2207 * inMat.x10)) + (t2214 * inMat.x20)) + (t2221 * inMat.x30))
+  let t2318 := ((((t2200 * inMat.x01) + (t2207 * inMat.x11)) + (t2214 * inMat.x21)) + (t2221 * inMat.x31))
+  let t2325 := ((((t2200 * inMat.x02) + (t2207 * inMat.x12)) + (t2214 * inMat.x22)) + (t2221 * inMat.x32))
+  let t2332 := ((((t2200 * inMat.x03) + (t2207 * inMat.x13)) + (t2214 * inMat.x23)) + (t2221 * inMat.x33))
+  let t2339 := ((((t2228 * inMat.x00) + (t2235 * inMat.x10)) + (t2242 * inMat.x20)) + (t2248 * inMat.x30))
+  let t2346 := ((((t2228 * inMat.x01) + (t2235 * inMat.x11)) + (t2242 * inMat.x21)) + (t2248 * inMat.x31))
+  let t2353 := ((((t2228 * inMat.x02) + (t2235 * inMat.x12)) + (t2242 * inMat.x22)) + (t2248 * inMat.x32))
+  let t2360 := ((((t2228 * inMat.x03) + (t2235 * inMat.x13)) + (t2242 * inMat.x23)) + (t2248 * inMat.x33))
+  ⟨((((t2255 * ref.x00) + (t2262 * ref.x10)) + (t2269 * ref.x20)) + (t2276 * ref.x30)), ((((t2255 * ref.x01) + (t2262 * ref.x11)) + (t2269 * ref.x21)) + (t2276 * ref.x31)), ((((t2255 * ref.x02) + (t2262 * ref.x12)) + (t2269 * ref.x22)) + (t2276 * ref.x32)), ((((t2255 * ref.x03) + (t2262 * ref.x13)) + (t2269 * ref.x23)) + (t2276 * ref.x33)), ((((t2283 * ref.x00) + (t2290 * ref.x10)) + (t2297 * ref.x20)) + (t2304 * ref.x30)), ((((t2283 * ref.x01) + (t2290 * ref.x11)) + (t2297 * ref.x21)) + (t2304 * ref.x31)), ((((t2283 * ref.x02) + (t2290 * ref.x12)) + (t2297 * ref.x22)) + (t2304 * ref.x32)), ((((t2283 * ref.x03) + (t2290 * ref.x13)) + (t2297 * ref.x23)) + (t2304 * ref.x33)), ((((t2311 * ref.x00) + (t2318 * ref.x10)) + (t2325 * ref.x20)) + (t2332 * ref.x30)), ((((t2311 * ref.x01) + (t2318 * ref.x11)) + (t2325 * ref.x21)) + (t2332 * ref.x31)), ((((t2311 * ref.x02) + (t2318 * ref.x12)) + (t2325 * ref.x22)) + (t2332 * ref.x32)), ((((t2311 * ref.x03) + (t2318 * ref.x13)) + (t2325 * ref.x23)) + (t2332 * ref.x33)), ((((t2339 * ref.x00) + (t2346 * ref.x10)) + (t2353 * ref.x20)) + (t2360 * ref.x30)), ((((t2339 * ref.x01) + (t2346 * ref.x11)) + (t2353 * ref.x21)) + (t2360 * ref.x31)), ((((t2339 * ref.x02) + (t2346 * ref.x12)) + (t2353 * ref.x22)) + (t2360 * ref.x32)), ((((t2339 * ref.x03) + (t2346 * ref.x13)) + (t2353 * ref.x23)) + (t2360 * ref.x33))⟩
 
 /-- extracted from the C++ template at T = Sym; 18 path(s) -/
 def Frame.firstFrame {α : Type} [Add α] [Sub α] [Mul α] [Div α] [Neg α] [LT α] [LE α] [DecidableLT α] [DecidableLE α] [DecidableEq α] [OfNat α 0] [OfNat α 1] [OfNat α 2] (tmin : α) (sqrt : α → α) (pi : V3 α) (pj : V3 α) (pk : V3 α) : Except Exc (M44 α) :=
   let t32 := (pj.z - pi.z)
   let t33 := (pj.y - pi.y)
   let t34 := (pj.x - pi.x)
-  let t2467 := (V3.length tmin sqrt ⟨t34, t33, t32⟩)
-  let t2468 := (t34 / t2467)
-  let t2469 := (t33 / t2467)
-  let t2470 := (t32 / t2467)
-  let t2471 := (pk.z - pi.z)
-  let t2472 := (pk.y - pi.y)
-  let t2473 := (pk.x - pi.x)
-  let t2476 := ((t2468 * t2472) - (t2469 * t2473))
-  let t2479 := ((t2470 * t2473) - (t2468 * t2471))
-  let t2482 := ((t2469 * t2471) - (t2470 * t2472))
-  let t2483 := (V3.length tmin sqrt ⟨t2482, t2479, t2476⟩)
-  let t2484 := (sabs t2469)
-  let t2485 := (sabs t2468)
-  let t2486 := (sabs t2470)
-  let t2487 := (t2469 * (0 : α))
-  let t2488 := (t2468 * (0 : α))
-  let t2489 := (t2488 - t2487)
-  let t2490 := (t2468 * (1 : α))
-  let t2491 := (t2470 * (0 : α))
-  let t2492 := (t2491 - t2490)
-  let t2493 := (t2469 * (1 : α))
-  let t2494 := (t2493 - t2491)
-  let t2495 := (V3.length tmin sqrt ⟨t2494, t2492, t2489⟩)
-  let t2498 := ((t2468 * t2492) - (t2469 * t2494))
-  let t2501 := ((t2470 * t2494) - (t2468 * t2489))
-  let t2504 := ((t2469 * t2489) - (t2470 * t2492))
-  let t2505 := (t2494 / t2495)
-  let t2506 := (t2492 / t2495)
-  let t2507 := (t2489 / t2495)
-  let t2510 := ((t2468 * t2506) - (t2469 * t2505))
-  let t2513 := ((t2470 * t2505) - (t2468 * t2507))
-  let t2516 := ((t2469 * t2507) - (t2470 * t2506))
-  let t2517 := (t2488 - t2493)
-  let t2518 := (t2470 * (1 : α))
-  let t2519 := (t2518 - t2488)
-  let t2520 := (t2487 - t2491)
-  let t2521 := (V3.length tmin sqrt ⟨t2520, t2519, t2517⟩)
-  let t2524 := ((t2468 * t2519) - (t2469 * t2520))
-  let t2527 := ((t2470 * t2520) - (t2468 * t2517))
-  let t2530 := ((t2469 * t2517) - (t2470 * t2519))
-  let t2531 := (t2520 / t2521)
-  let t2532 := (t2519 / t2521)
-  let t2533 := (t2517 / t2521)
-  let t2536 := ((t2468 * t2532) - (t2469 * t2531))
-  let t2539 := ((t2470 * t2531) - (t2468 * t2533))
-  let t2542 := ((t2469 * t2533) - (t2470 * t2532))
-  let t2543 := (t2490 - t2487)
-  let t2544 := (t2491 - t2488)
-  let t2545 := (t2487 - t2518)
-  let t2546 := (V3.length tmin sqrt ⟨t2545, t2544, t2543⟩)
-  let t2549 := ((t2468 * t2544) - (t2469 * t2545))
-  let t2552 := ((t2470 * t2545) - (t2468 * t2543))
-  let t2555 := ((t2469 * t2543) - (t2470 * t2544))
-  let t2556 := (t2545 / t2546)
-  let t2557 := (t2544 / t2546)
-  let t2558 := (t2543 / t2546)
-  let t2561 := ((t2468 * t2557) - (t2469 * t2556))
-  let t2564 := ((t2470 * t2556) - (t2468 * t2558))
-  let t2567 := ((t2469 * t2558) - (t2470 * t2557))
-  let t2568 := (t2482 / t2483)
-  let t2569 := (t2479 / t2483)
-  let t2570 := (t2476 / t2483)
-  let t2571 := (V3.length tmin sqrt ⟨t2568, t2569, t2570⟩)
-  if t2467 = (0 : α) then
+  let t2476 := (V3.length tmin sqrt ⟨t34, t33, t32⟩)
+  let t2477 := (t34 / t2476)
+  let t2478 := (t33 / t2476)
+  let t2479 := (t32 / t2476)
+  let t2480 := (pk.z - pi.z)
+  let t2481 := (pk.y - pi.y)
+  let t2482 := (pk.x - pi.x)
+  let t2485 := ((t2477 * t2481) - (t2478 * t2482))
+  let t2488 := ((t2479 * t2482) - (t2477 * t2480))
+  let t2491 := ((t2478 * t2480) - (t2479 * t2481))
+  let t2492 := (V3.length tmin sqrt ⟨t2491, t2488, t2485⟩)
+  let t2493 := (sabs t2478)
+  let t2494 := (sabs t2477)
+  let t2495 := (sabs t2479)
+  let t2496 := (t2478 * (0 : α))
+  let t2497 := (t2477 * (0 : α))
+  let t2498 := (t2497 - t2496)
+  let t2499 := (t2477 * (1 : α))
+  let t2500 := (t2479 * (0 : α))
+  let t2501 := (t2500 - t2499)
+  let t2502 := (t2478 * (1 : α))
+  let t2503 := (t2502 - t2500)
+  let t2504 := (V3.length tmin sqrt ⟨t2503, t2501, t2498⟩)
+  let t2507 := ((t2477 * t2501) - (t2478 * t2503))
+  let t2510 := ((t2479 * t2503) - (t2477 * t2498))
+  let t2513 := ((t2478 * t2498) - (t2479 * t2501))
+  let t2514 := (t2503 / t2504)
+  let t2515 := (t2501 / t2504)
+  let t2516 := (t2498 / t2504)
+  let t2519 := ((t2477 * t2515) - (t2478 * t2514))
+  let t2522 := ((t2479 * t2514) - (t2477 * t2516))
+  let t2525 := ((t2478 * t2516) - (t2479 * t2515))
+  let t2526 := (t2497 - t2502)
+  let t2527 := (t2479 * (1 : α))
+  let t2528 := (t2527 - t2497)
+  let t2529 := (t2496 - t2500)
+  let t2530 := (V3.length tmin sqrt ⟨t2529, t2528, t2526⟩)
+  let t2533 := ((t2477 * t2528) - (t2478 * t2529))
+  let t2536 := ((t2479 * t2529) - (t2477 * t2526))
+  let t2539 := ((t2478 * t2526) - (t2479 * t2528))
+  let t2540 := (t2529 / t2530)
+  let t2541 := (t2528 / t2530)
+  let t2542 := (t2526 / t2530)
+  let t2545 := ((t2477 * t2541) - (t2478 * t2540))
+  let t2548 := ((t2479 * t2540) - (t2477 * t2542))
+  let t2551 := ((t2478 * t2542) - (t2479 * t2541))
+  let t2552 := (t2499 - t2496)
+  let t2553 := (t2500 - t2497)
+  let t2554 := (t2496 - t2527)
+  let t2555 := (V3.length tmin sqrt ⟨t2554, t2553, t2552⟩)
+  let t2558 := ((t2477 * t2553) - (t2478 * t2554))
+  let t2561 := ((t2479 * t2554) - (t2477 * t2552))
+  let t2564 := ((t2478 * t2552) - (t2479 * t2553))
+  let t2565 := (t2554 / t2555)
+  let t2566 := (t2553 / t2555)
+  let t2567 := (t2552 / t2555)
+  let t2570 := ((t2477 * t2566) - (t2478 * t2565))
+  let t2573 := ((t2479 * t2565) - (t2477 * t2567))
+  let t2576 := ((t2478 * t2567) - (t2479 * t2566))
+  let t2577 := (t2491 / t2492)
+  let t2578 := (t2488 / t2492)
+  let t2579 := (t2485 / t2492)
+  let t2580 := (V3.length tmin sqrt ⟨t2577, t2578, t2579⟩)
+  if t2476 = (0 : α) then
     .error Exc.domainError
   else
-    if t2483 = (0 : α) then
-      if t2485 < t2484 then
-        if t2486 < t2485 then
-          if t2495 = (0 : α) then
-            .ok (⟨t2468, t2469, t2470, (0 : α), t2494, t2492, t2489, (0 : α), t2504, t2501, t2498, (0 : α), pi.x, pi.y, pi.z, (1 : α)⟩)
+    if t2492 = (0 : α) then
+      if t2494 < t2493 then
+        if t2495 < t2494 then
+          if t2504 = (0 : α) then
+            .ok (⟨t2477, t2478, t2479, (0 : α), t2503, t2501, t2498, (0 : α), t2513, t2510, t2507, (0 : α), pi.x, pi.y, pi.z, (1 : α)⟩)
           else
-            .ok (⟨t2468, t2469, t2470, (0 : α), t2505, t2506, t2507, (0 : α), t2516, t2513, t2510, (0 : α), pi.x, pi.y, pi.z, (1 : α)⟩)
+            .ok (⟨t2477, t2478, t2479, (0 : α), t2514, t2515, t2516, (0 : α), t2525, t2522, t2519, (0 : α), pi.x, pi.y, pi.z, (1 : α)⟩)
         else
-          if t2521 = (0 : α) then
-            .ok (⟨t2468, t2469, t2470, (0 : α), t2520, t2519, t2517, (0 : α), t2530, t2527, t2524, (0 : α), pi.x, pi.y, pi.z, (1 : α)⟩)
+          if t2530 = (0 : α) then
+            .ok (⟨t2477, t2478, t2479, (0 : α), t2529, t2528, t2526, (0 : α), t2539, t2536, t2533, (0 : α), pi.x, pi.y, pi.z, (1 : α)⟩)
           else
-            .ok (⟨t2468, t2469, t2470, (0 : α), t2531, t2532, t2533, (0 : α), t2542, t2539, t2536, (0 : α), pi.x, pi.y, pi.z, (1 : α)⟩)
+            .ok (⟨t2477, t2478, t2479, (0 : α), t2540, t2541, t2542, (0 : α), t2551, t2548, t2545, (0 : α), pi.x, pi.y, pi.z, (1 : α)⟩)
       else
-        if t2486 < t2484 then
-          if t2495 = (0 : α) then
-            .ok (⟨t2468, t2469, t2470, (0 : α), t2494, t2492, t2489, (0 : α), t2504, t2501, t2498, (0 : α), pi.x, pi.y, pi.z, (1 : α)⟩)
+        if t2495 < t2493 then
+          if t2504 = (0 : α) then
+            .ok (⟨t2477, t2478, t2479, (0 : α), t2503, t2501, t2498, (0 : α), t2513, t2510, t2507, (0 : α), pi.x, pi.y, pi.z, (1 : α)⟩)
           else
-            .ok (⟨t2468, t2469, t2470, (0 : α), t2505, t2506, t2507, (0 : α), t2516, t2513, t2510, (0 : α), pi.x, pi.y, pi.z, (1 : α)⟩)
+            .ok (⟨t2477, t2478, t2479, (0 : α), t2514, t2515, t2516, (0 : α), t2525, t2522, t2519, (0 : α), pi.x, pi.y, pi.z, (1 : α)⟩)
         else
-          if t2546 = (0 : α) then
-            .ok (⟨t2468, t2469, t2470, (0 : α), t2545, t2544, t2543, (0 : α), t2555, t2552, t2549, (0 : α), pi.x, pi.y, pi.z, (1 : α)⟩)
+          if t2555 = (0 : α) then
+            .ok (⟨t2477, t2478, t2479, (0 : α), t2554, t2553, t2552, (0 : α), t2564, t2561, t2558, (0 : α), pi.x, pi.y, pi.z, (1 : α)⟩)
           else
-            .ok (⟨t2468, t2469, t2470, (0 : α), t2556, t2557, t2558, (0 : α), t2567, t2564, t2561, (0 : α), pi.x, pi.y, pi.z, (1 : α)⟩)
+            .ok (⟨t2477, t2478, t2479, (0 : α), t2565, t2566, t2567, (0 : α), t2576, t2573, t2570, (0 : α), pi.x, pi.y, pi.z, (1 : α)⟩)
     else
-      if t2571 = (0 : α) then
-        if t2485 < t2484 then
-          if t2486 < t2485 then
-            if t2495 = (0 : α) then
-              .ok (⟨t2468, t2469, t2470, (0 : α), t2494, t2492, t2489, (0 : α), t2504, t2501, t2498, (0 : α), pi.x, pi.y, pi.z, (1 : α)⟩)
+      if t2580 = (0 : α) then
+        if t2494 < t2493 then
+          if t2495 < t2494 then
+            if t2504 = (0 : α) then
+              .ok (⟨t2477, t2478, t2479, (0 : α), t2503, t2501, t2498, (0 : α), t2513, t2510, t2507, (0 : α), pi.x, pi.y, pi.z, (1 : α)⟩)
             else
-              .ok (⟨t2468, t2469, t2470, (0 : α), t2505, t2506, t2507, (0 : α), t2516, t2513, t2510, (0 : α), pi.x, pi.y, pi.z, (1 : α)⟩)
+              .ok (⟨t2477, t2478, t2479, (0 : α), t2514, t2515, t2516, (0 : α), t2525, t2522, t2519, (0 : α), pi.x, pi.y, pi.z, (1 : α)⟩)
           else
-            if t2521 = (0 : α) then
-              .ok (⟨t2468, t2469, t2470, (0 : α), t2520, t2519, t2517, (0 : α), t2530, t2527, t2524, (0 : α), pi.x, pi.y, pi.z, (1 : α)⟩)
+            if t2530 = (0 : α) then
+              .ok (⟨t2477, t2478, t2479, (0 : α), t2529, t2528, t2526, (0 : α), t2539, t2536, t2533, (0 : α), pi.x, pi.y, pi.z, (1 : α)⟩)
             else
-              .ok (⟨t2468, t2469, t2470, (0 : α), t2531, t2532, t2533, (0 : α), t2542, t2539, t2536, (0 : α), pi.x, pi.y, pi.z, (1 : α)⟩)
+              .ok (⟨t2477, t2478, t2479, (0 : α), t2540, t2541, t2542, (0 : α), t2551, t2548, t2545, (0 : α), pi.x, pi.y, pi.z, (1 : α)⟩)
         else
-          if t2486 < t2484 then
-            if t2495 = (0 : α) then
-              .ok (⟨t2468, t2469, t2470, (0 : α), t2494, t2492, t2489, (0 : α), t2504, t2501, t2498, (0 : α), pi.x, pi.y, pi.z, (1 : α)⟩)
+          if t2495 < t2493 then
+            if t2504 = (0 : α) then
+              .ok (⟨t2477, t2478, t2479, (0 : α), t2503, t2501, t2498, (0 : α), t2513, t2510, t2507, (0 : α), pi.x, pi.y, pi.z, (1 : α)⟩)
             else
-              .ok (⟨t2468, t2469, t2470, (0 : α), t2505, t2506, t2507, (0 : α), t2516, t2513, t2510, (0 : α), pi.x, pi.y, pi.z, (1 : α)⟩)
+              .ok (⟨t2477, t2478, t2479, (0 : α), t2514, t2515, t2516, (0 : α), t2525, t2522, t2519, (0 : α), pi.x, pi.y, pi.z, (1 : α)⟩)
           else
-            if t2546 = (0 : α) then
-              .ok (⟨t2468, t2469, t2470, (0 : α), t2545, t2544, t2543, (0 : α), t2555, t2552, t2549, (0 : α), pi.x, pi.y, pi.z, (1 : α)⟩)
+            if t2555 = (0 : α) then
+              .ok (⟨t2477, t2478, t2479, (0 : α), t2554, t2553, t2552, (0 : α), t2564, t2561, t2558, (0 : α), pi.x, pi.y, pi.z, (1 : α)⟩)
             else
-              .ok (⟨t2468, t2469, t2470, (0 : α), t2556, t2557, t2558, (0 : α), t2567, t2564, t2561, (0 : α), pi.x, pi.y, pi.z, (1 : α)⟩)
+              .ok (⟨t2477, t2478, t2479, (0 : α), t2565, t2566, t2567, (0 : α), t2576, t2573, t2570, (0 : α), pi.x, pi.y, pi.z, (1 : α)⟩)
       else
-        .ok (⟨t2468, t2469, t2470, (0 : α), t2568, t2569, t2570, (0 : α), ((t2469 * t2570) - (t2470 * t2569)), ((t2470 * t2568) - (t2468 * t2570)), ((t2468 * t2569) - (t2469 * t2568)), (0 : α), pi.x, pi.y, pi.z, (1 : α)⟩)
+        .ok (⟨t2477, t2478, t2479, (0 : α), t2577, t2578, t2579, (0 : α), ((t2478 * t2579) - (t2479 * t2578)), ((t2479 * t2577) - (t2477 * t2579)), ((t2477 * t2578) - (t2478 * t2577)), (0 : α), pi.x, pi.y, pi.z, (1 : α)⟩)
 
 /-- extracted from the C++ template at T = Sym; 1 path(s) -/
 def Frame.lastFrame {α : Type} [Add α] [Sub α] [Mul α] [OfNat α 0] [OfNat α 1] (Mi : M44 α) (pi : V3 α) (pj : V3 α) : (M44 α) :=
   let t32 := (pj.z - pi.z)
+  let t33 := (pj.y - pi.y)
   let t34 := (pj.x - pi.x)
   let t35 := (t32 * (0 : α))
-  let t36 := ((pj.y - pi.y) * (0 : α))
+  let t36 := (t33 * (0 : α))
   let t40 := ((0 : α) + (((t34 * (1 : α)) + t36) + t35))
-  let t42 := ((t34 * (0 : α)) + t36)
-  let t43 := (t42 + t35)
-  let t44 := ((0 : α) + t43)
-  let t47 := ((0 : α) + (t42 + (t32 * (1 : α))))
-  let t48 := ((1 : α) + t43)
-  let t50 := (Mi.x02 * (0 : α))
-  let t51 := (Mi.x01 * (0 : α))
-  let t58 := (Mi.x00 * (0 : α))
-  let t64 := (t58 + t51)
-  let t71 := (Mi.x12 * (0 : α))
-  let t72 := (Mi.x11 * (0 : α))
-  let t79 := (Mi.x10 * (0 : α))
-  let t85 := (t79 + t72)
-  let t92 := (Mi.x22 * (0 : α))
-  let t93 := (Mi.x21 * (0 : α))
-  let t100 := (Mi.x20 * (0 : α))
-  let t106 := (t100 + t93)
-  let t113 := (Mi.x32 * (0 : α))
-  let t114 := (Mi.x31 * (0 : α))
-  let t121 := (Mi.x30 * (0 : α))
-  let t127 := (t121 + t114)
-  ⟨((((Mi.x00 * (1 : α)) + t51) + t50) + (Mi.x03 * t40)), (((t58 + (Mi.x01 * (1 : α))) + t50) + (Mi.x03 * t44)), ((t64 + (Mi.x02 * (1 : α))) + (Mi.x03 * t47)), ((t64 + t50) + (Mi.x03 * t48)), ((((Mi.x10 * (1 : α)) + t72) + t71) + (Mi.x13 * t40)), (((t79 + (Mi.x11 * (1 : α))) + t71) + (Mi.x13 * t44)), ((t85 + (Mi.x12 * (1 : α))) + (Mi.x13 * t47)), ((t85 + t71) + (Mi.x13 * t48)), ((((Mi.x20 * (1 : α)) + t93) + t92) + (Mi.x23 * t40)), (((t100 + (Mi.x21 * (1 : α))) + t92) + (Mi.x23 * t44)), ((t106 + (Mi.x22 * (1 : α))) + (Mi.x23 * t47)), ((t106 + t92) + (Mi.x23 * t48)), ((((Mi.x30 * (1 : α)) + t114) + t113) + (Mi.x33 * t40)), (((t121 + (Mi.x31 * (1 : α))) + t113) + (Mi.x33 * t44)), ((t127 + (Mi.x32 * (1 : α))) + (Mi.x33 * t47)), ((t127 + t113) + (Mi.x33 * t48))⟩
+  let t42 := (t34 * (0 : α))
+  let t45 := ((0 : α) + ((t42 + (t33 * (1 : α))) + t35))
+  let t47 := (t42 + t36)
+  let t49 := ((0 : α) + (t47 + (t32 * (1 : α))))
+  let t51 := ((1 : α) + (t47 + t35))
+  let t53 := (Mi.x02 * (0 : α))
+  let t54 := (Mi.x01 * (0 : α))
+  let t61 := (Mi.x00 * (0 : α))
+  let t67 := (t61 + t54)
+  let t74 := (Mi.x12 * (0 : α))
+  let t75 := (Mi.x11 * (0 : α))
+  let t82 := (Mi.x10 * (0 : α))
+  let t88 := (t82 + t75)
+  let t95 := (Mi.x22 * (0 : α))
+  let t96 := (Mi.x21 * (0 : α))
+  let t103 := (Mi.x20 * (0 : α))
+  let t109 := (t103 + t96)
+  let t116 := (Mi.x32 * (0 : α))
+  let t117 := (Mi.x31 * (0 : α))
+  let t124 := (Mi.x30 * (0 : α))
+  let t130 := (t124 + t117)
+  ⟨((((Mi.x00 * (1 : α)) + t54) + t53) + (Mi.x03 * t40)), (((t61 + (Mi.x01 * (1 : α))) + t53) + (Mi.x03 * t45)), ((t67 + (Mi.x02 * (1 : α))) + (Mi.x03 * t49)), ((t67 + t53) + (Mi.x03 * t51)), ((((Mi.x10 * (1 : α)) + t75) + t74) + (Mi.x13 * t40)), (((t82 + (Mi.x11 * (1 : α))) + t74) + (Mi.x13 * t45)), ((t88 + (Mi.x12 * (1 : α))) + (Mi.x13 * t49)), ((t88 + t74) + (Mi.x13 * t51)), ((((Mi.x20 * (1 : α)) + t96) + t95) + (Mi.x23 * t40)), (((t103 + (Mi.x21 * (1 : α))) + t95) + (Mi.x23 * t45)), ((t109 + (Mi.x22 * (1 : α))) + (Mi.x23 * t49)), ((t109 + t95) + (Mi.x23 * t51)), ((((Mi.x30 * (1 : α)) + t117) + t116) + (Mi.x33 * t40)), (((t124 + (Mi.x31 * (1 : α))) + t116) + (Mi.x33 * t45)), ((t130 + (Mi.x32 * (1 : α))) + (Mi.x33 * t49)), ((t130 + t116) + (Mi.x33 * t51))⟩
 
 end ImathVerif.Gen
